@@ -77,6 +77,14 @@ CHECKS = {
           'same tuple component range, cardinality cell plus one row per element) and that every unchecked table read of the unpacker is only reachable under the cursor bounds test of UnpackFor, element loops are bounded by the row count and trailing rows are rejected.',
   'note': 'Round-trip equality as values and behaviour for hostile counts beyond the structural guards (negative or huge numbers) are not decided. A re-design of the encoding makes the sibling rules ANALYSIS-BROKEN rather than pass.',
  },
+ 'C15': {
+  'technique': 'summarisation of loop-comprehension set code into membership formulas + exhaustive truth tables; structural rules for the copy-on-write gate, the derivation/orientation of the ordering, builder discipline (data-flow from the factory) and lazy iteration order',
+  'text': 'Decides: (a) value semantics - the handle holds only the shared pointer, the only mutable hand-outs are ModifyB/UniqueData and UniqueData tests use_count() on every path and clones when shared, set copies clone; '
+          '(b) each set operation, reduced to a membership formula over (e in this, e in rhs), equals its definition on all four cases and builds its result only by AddElement on a fresh enumerated set; '
+          '(c) ==/< are derived from Compare, element comparison is a trichotomy, tuple/set/variant comparison compare this against rhs lexicographically / cardinality-first; (d) every AddElement receiver in the library starts from an enumerated factory; '
+          '(e) the lazy product enumerates with the last component fastest, matching tuple comparison.',
+  'note': 'Agreement of the power-set enumeration order with the set ordering and the lifetime of references into the lazy-element cache (possible finding F-C15-1, never replayed, not listed) are not decided.',
+ },
 }
 
 _PENDING = 'rule module not yet implemented in this round; see DESIGN.md section 4 for the clauses planned'
